@@ -447,7 +447,8 @@ impl GroupConfig {
                 Overreplicated(self.rf_over())
             },
             root_paths: if self.isolate {
-                self.input_paths().collect()
+                // scanned paths are canonical, so the roots must be canonical too
+                self.input_paths().map(|p| p.canonicalize()).collect()
             } else {
                 vec![]
             },
